@@ -155,4 +155,57 @@ TableauRowOK(lp, rv, trow) ==
   /\ LET t == ColDot(lp, rv) IN
        /\ \A j \in 1..lp.n : trow[j] = t[j]
        /\ \A i \in 1..lp.m : trow[lp.n + i] = RMul(rv[i], LogCoef(lp, i))
+
+(***************************************************************************)
+(* Basic solutions.  A basis gives every column a status: structurals       *)
+(* cstat[j] in "0" (at lower) "1" (basic) "2" (at upper) "3" (free,          *)
+(* nonbasic at 0); logicals rstat[i] in "0" "1" "2".  xs = values of the      *)
+(* structurals followed by the values of the logicals; pi = row multipliers.  *)
+(***************************************************************************)
+LogVal(lp, xs, i) == xs[lp.n + i]
+BasisShapeOK(lp, cstat, rstat) ==
+  /\ Len(cstat) = lp.n /\ Len(rstat) = lp.m
+  /\ \A j \in 1..lp.n : cstat[j] \in {"0", "1", "2", "3"}
+  /\ \A i \in 1..lp.m : rstat[i] \in {"0", "1", "2"}
+  /\ Cardinality({j \in 1..lp.n : cstat[j] = "1"}) + Cardinality({i \in 1..lp.m : rstat[i] = "1"}) = lp.m
+\* the nonbasic variables sit where their status says (set of offending [c, k])
+NonbasicAtStatus(lp, cstat, rstat, xs) ==
+  {[c |-> "nonbasic column not at its status bound", k |-> j] : j \in {j \in 1..lp.n :
+       \/ (cstat[j] = "0" /\ ~(Fin(lp.lo[j]) /\ xs[j] = lp.lo[j]))
+       \/ (cstat[j] = "2" /\ ~(Fin(lp.up[j]) /\ xs[j] = lp.up[j]))
+       \/ (cstat[j] = "3" /\ xs[j] # Z)}}
+  \cup {[c |-> "nonbasic row logical not at its status bound", k |-> i] : i \in {i \in 1..lp.m :
+       \/ (rstat[i] = "0" /\ LogVal(lp, xs, i) # Z)
+       \/ (rstat[i] = "2" /\ ~(Fin(LogUp(lp, i)) /\ LogVal(lp, xs, i) = LogUp(lp, i)))}}
+\* xs, pi is THE basic solution of the basis (unique when the basis matrix is non-singular):
+\* nonbasics at their bounds, rows hold as equations with the logicals, reduced cost of every basic column is 0
+BasicSolutionDefects(lp, cstat, rstat, xs, pi) ==
+  IF Len(xs) # lp.n + lp.m \/ Len(pi) # lp.m THEN {[c |-> "shape", k |-> 0]} ELSE
+  LET x == SubSeq(xs, 1, lp.n)
+      t == ColDot(lp, pi)
+  IN NonbasicAtStatus(lp, cstat, rstat, xs)
+     \cup {[c |-> "row equation", k |-> i] : i \in {i \in 1..lp.m : RAdd(Act(lp, x, i), RMul(LogCoef(lp, i), LogVal(lp, xs, i))) # lp.rhs[i]}}
+     \cup {[c |-> "basic column has non-zero reduced cost", k |-> j] : j \in {j \in 1..lp.n : cstat[j] = "1" /\ RSub(lp.obj[j], t[j]) # Z}}
+     \cup {[c |-> "basic logical has non-zero multiplier", k |-> i] : i \in {i \in 1..lp.m : rstat[i] = "1" /\ pi[i] # Z}}
+\* a null vector of the basis matrix (columns = basic variables): proves singularity
+BasisSingularWitness(lp, cstat, rstat, v) ==
+  /\ Len(v) = lp.n + lp.m /\ \E k \in 1..(lp.n + lp.m) : v[k] # Z
+  /\ \A j \in 1..lp.n : cstat[j] # "1" => v[j] = Z
+  /\ \A i \in 1..lp.m : rstat[i] # "1" => v[lp.n + i] = Z
+  /\ \A i \in 1..lp.m : RAdd(Act(lp, SubSeq(v, 1, lp.n), i), RMul(LogCoef(lp, i), v[lp.n + i])) = Z
+\* feasibility of a basic solution
+BasisPrimalFeasible(lp, xs) ==
+  /\ \A j \in 1..lp.n : XLeq(lp.lo[j], xs[j]) /\ XLeq(xs[j], lp.up[j])
+  /\ \A i \in 1..lp.m : XLeq(Z, LogVal(lp, xs, i)) /\ XLeq(LogVal(lp, xs, i), LogUp(lp, i))
+\* dual feasibility in the internal minimisation form: nonbasic at lower needs rc >= 0, at upper rc <= 0, free rc = 0;
+\* fixed variables (lower = upper; the logical of an E row, a range row with range 0) are never dual infeasible
+BasisDualFeasible(lp, cstat, rstat, pi) ==
+  LET d == Dir(lp)
+      t == ColDot(lp, pi)
+      rc(j) == d * RSign(RSub(lp.obj[j], t[j]))
+      lrc(i) == d * RSign(RNeg(RMul(LogCoef(lp, i), pi[i])))
+  IN /\ \A j \in 1..lp.n : cstat[j] = "1" \/ lp.lo[j] = lp.up[j] \/
+            CASE cstat[j] = "0" -> rc(j) >= 0 [] cstat[j] = "2" -> rc(j) <= 0 [] OTHER -> rc(j) = 0
+     /\ \A i \in 1..lp.m : rstat[i] = "1" \/ LogUp(lp, i) = Z \/
+            CASE rstat[i] = "0" -> lrc(i) >= 0 [] OTHER -> lrc(i) <= 0
 =============================================================================
